@@ -1376,7 +1376,51 @@ func isRefType(t types.Type) bool {
 
 // ---------------------------------------------------------------------------
 
+// phasesOfCheck: SoftResource.check and the small helpers that are called by
+// nothing but check and its phases (a normaliser split into steps).
+func phasesOfCheck(p *Prog) map[*ssa.Function]bool {
+	set := map[*ssa.Function]bool{}
+	chk := p.Fn("(*SoftResource).check")
+	if chk == nil {
+		return set
+	}
+	set[chk] = true
+	for changed := true; changed; {
+		changed = false
+		for _, g := range p.Funcs {
+			if set[g] || !smallHelper(g) || g.Parent() != nil {
+				continue
+			}
+			calls := p.cg.callers[g]
+			if len(calls) == 0 {
+				continue
+			}
+			all := true
+			for _, c := range calls {
+				if !set[c.Parent()] || c.Common().IsInvoke() || c.Common().StaticCallee() != g {
+					all = false
+				}
+			}
+			for _, vf := range p.cg.valueFuncs {
+				if vf == g {
+					all = false
+				}
+			}
+			if all {
+				set[g] = true
+				changed = true
+			}
+		}
+	}
+	return set
+}
+
 func checkC11Writes(p *Prog, r *Report, h *Heap) {
+	phases := phasesOfCheck(p)
+	phaseNames := map[string]bool{}
+	for g := range phases {
+		phaseNames[funcName(g)] = true
+	}
 	n := 0
 	for _, e := range c11Entries {
 		f := p.Fn(e)
@@ -1386,7 +1430,7 @@ func checkC11Writes(p *Prog, r *Report, h *Heap) {
 			n++
 			key := fmt.Sprintf("%s:%s:%s@%s:%s", e, m.Kind, m.Loc, m.Fn, p.pos(m.Pos))
 			switch {
-			case m.Fn == "(*SoftResource).check":
+			case m.Fn == "(*SoftResource).check" || phaseNames[m.Fn]:
 				r.ok("C11.write-inventory", key, p.pos(m.Pos), "normalisation by (*SoftResource).check")
 			case m.Kind == "sort":
 				seenSort[m.Fn] = true
@@ -1414,7 +1458,7 @@ func checkC11Writes(p *Prog, r *Report, h *Heap) {
 	}
 	nAcc := 0
 	for _, f := range p.Funcs {
-		if !strings.HasPrefix(funcName(f), "(*SoftResource).") || f == chk || funcName(f) == "(*SoftResource).fields" || f.Parent() != nil {
+		if !strings.HasPrefix(funcName(f), "(*SoftResource).") || f == chk || phases[f] || funcName(f) == "(*SoftResource).fields" || f.Parent() != nil {
 			continue
 		}
 		if len(f.Params) == 0 {
@@ -1441,6 +1485,25 @@ func checkC11Writes(p *Prog, r *Report, h *Heap) {
 						c, ok := i2.(*ssa.Call)
 						return ok && c.Common().StaticCallee() == chk && c.Common().Args[0] == ssa.Value(recv)
 					})
+					if !okc && smallHelper(f) && len(p.cg.callers[f]) > 0 {
+						// a helper of an accessor: check() has run on the same receiver
+						// before every call of it
+						okc = true
+						for _, cc := range p.cg.callers[f] {
+							call, isCall := cc.(*ssa.Call)
+							if !isCall || cc.Common().IsInvoke() || cc.Common().StaticCallee() != f || len(cc.Common().Args) == 0 {
+								okc = false
+								continue
+							}
+							arg := cc.Common().Args[0]
+							if !mustPassInstr(cc.Parent(), call, func(i2 ssa.Instruction) bool {
+								c, ok := i2.(*ssa.Call)
+								return ok && c.Common().StaticCallee() == chk && c.Common().Args[0] == arg
+							}) {
+								okc = false
+							}
+						}
+					}
 					nAcc++
 					r.decide(okc, "C11.write-inventory", "check-first:"+funcName(f)+":"+p.describe(u), p.pos(u.Pos()), "check() runs before this read", funcName(f)+" reads "+fl+" without running check() first: the normalisation done during marshaling would be observable through it")
 				}
